@@ -281,6 +281,46 @@ Definition step_sub (s : sys) (a : act) : option sys :=
 Definition step_skip_sub (s : sys) (a : act) : sys := match step_sub s a with Some s' => s' | None => s end.
 Definition run_sub (sched : list act) : sys := fold_left step_skip_sub sched sys0.
 
+(* ---------- T1: the refusal / failure sites, as read from the source ----------
+   tools/gen/task_fail_sites.py regenerates `gen_fail_sites` (Gen/TaskFailSites.v): one entry per `fail_task(..)`
+   call in run_task (mod.rs), run_pipes_task (pipes.rs) and run_pty_task (pty.rs) — WHERE it sits relative to
+   the spawn-frame emit and the Running emit, and whether the function returns right after it.  `step`'s
+   APostSpawnFail is the abstraction of a site that sits after the spawn frame, before Running, and returns. *)
+Inductive fail_where := FBeforeSpawn | FAfterSpawn | FAfterRunning.
+Record fail_site := { fs_where : fail_where; fs_returns : bool }.
+Definition fail_site_wf (f : fail_site) : bool :=
+  match fs_where f with FAfterSpawn => fs_returns f | _ => false end.
+Definition sites_wf (l : list fail_site) : bool := forallb fail_site_wf l.
+
+(* the schedule alphabet with the failure of the k-th site instead of the abstract APostSpawnFail *)
+Inductive act_f := FAct (a : act) | FFail (k : nat).
+
+Definition fail_at (f : fail_site) (s : sys) : option sys :=
+  match fs_where f, s_main s with
+  | FBeforeSpawn, MStart => Some (emit s (LStatus 4) (if fs_returns f then MEnd else MStart))
+  | FAfterSpawn, MSpawnedPc => Some (emit s (LStatus 4) (if fs_returns f then MEnd else MSpawnedPc))
+  | FAfterRunning, MSelect => Some (emit s (LStatus 4) (if fs_returns f then MEnd else MSelect))
+  | _, _ => None
+  end.
+
+Definition step_f (sites : list fail_site) (s : sys) (a : act_f) : option sys :=
+  match a with
+  | FAct APostSpawnFail => None       (* failures happen at the sites only *)
+  | FAct a' => step s a'
+  | FFail k => match nth_error sites k with Some f => fail_at f s | None => None end
+  end.
+Definition step_skip_f (sites : list fail_site) (s : sys) (a : act_f) : sys :=
+  match step_f sites s a with Some s' => s' | None => s end.
+Definition run_f (sites : list fail_site) (sched : list act_f) : sys := fold_left (step_skip_f sites) sched sys0.
+
+(* the corresponding action of the abstract system (APrecheckFail is never enabled) *)
+Definition erase_f (sites : list fail_site) (a : act_f) : act :=
+  match a with
+  | FAct APostSpawnFail => APrecheckFail
+  | FAct a' => a'
+  | FFail k => match nth_error sites k with Some _ => APostSpawnFail | None => APrecheckFail end
+  end.
+
 (* a schedule is any list of actions; disabled actions are skipped (so EVERY list is a schedule) *)
 Definition step_skip (s : sys) (a : act) : sys := match step s a with Some s' => s' | None => s end.
 Definition run (sched : list act) : sys := fold_left step_skip sched sys0.
